@@ -63,7 +63,9 @@ def gen_replace_gene(rnd, syms, R, patch, idx, cat):
     sid = rnd.choice(cands)
     c, k, w, ac = syms[sid]
     args = [rnd.randrange(idx + 1, R) for _ in ac]
-    if k == "n":
+    if k in "npq" and rnd.random() < 0.25:
+        par = dhex(rnd.choice([0.0, -0.0]))          # +0.0 and -0.0: equal for operator<, different objects
+    elif k == "n":
         par = dhex(rnd.uniform(1.0, 1.00003))
     else:
         par = dhex(float(rnd.randint(-50, 50)) if rnd.random() < 0.7 else rnd.uniform(-5, 5)) if k in "pq" else dhex(0.0)
@@ -168,7 +170,16 @@ def gen_near_case(rnd, thorough):
         elif r < 0.6:
             a = rnd.randrange(nslots)
             ops.append(["X", str(a), str(k), str(k)])
+        if rnd.random() < 0.4:
+            # constants +0.0 / -0.0 / 1.0 planted by replace: cse must keep the signed zeros apart (std::memcmp)
+            for _ in range(rnd.randint(2, 6)):
+                cat = rnd.randrange(ncats)
+                sid = rnd.choice([i for i, sy in enumerate(syms) if sy[0] == cat and sy[1] == "n"])
+                ops.append(["R", str(k), str(rnd.randrange(R)), str(cat), str(sid),
+                            dhex(rnd.choice([0.0, -0.0, 0.0, -0.0, 1.0])), "0"])
         ops.append(["C", str(k)])
+        if rnd.random() < 0.3:
+            ops.append(["W", str(k)])
         if rnd.random() < 0.3:
             ops.append(["C", str(k)])          # cse of a cse
     hdr = ["I", str(rnd.randrange(1, 2**31)), str(R), str(patch), "1", str(nslots)]
@@ -397,7 +408,8 @@ def run(ck):
         "(checked inside the model's draw primitives; streams that break it give no result)",
         "terminal::init() of a parametric terminal consumes exactly one draw and returns its value",
         "symbol identity is opcode identity (opcodes are primary keys)",
-        "ephemeral constants are numbers: random::between<double> never returns a NaN (checked by init_par; part of ind_ok_b)",
+        "ephemeral constants are numbers: random::between<double> never returns a NaN (checked by init_par; part of ind_ok_b, "
+        "not needed by cse any more: the current comparator orders the bytes of the parameter)",
         "one-point crossover on 2 rows calls between(1,1), an empty range outside the contract of std::uniform_int_distribution; "
         "modelled as libstdc++ behaves: any size_t may come back (between_or_any), rows cut..R-1 are copied",
         "Flocq/stdlib axioms appear only because gene parameters are binary64 values (Base/F64.v)"]
